@@ -30,13 +30,19 @@ REQUIRED_THEOREMS = [
     "simplify_fuel_sufficient",
     "structurally_full_rank",
     "span_unchanged",
-    "components_independent_partial",
+    "components_independent",
+    "full_coding_span_eq_one_sup_reduced",
+    "scoped_term_span_eq_sum_of_components",
+    "reduced_matrix_full_rank_same_span",
 ]
 TRUSTED = base.TRUSTED + [
-    "the bridge from structure to linear algebra is a Lean theorem only in part (components_independent_partial: on a "
-    "fully crossed design columns of pairwise different component/column choices are linearly independent, any number "
-    "of factors); that a scoped term with full-coded factors spans exactly the sum of its components is NOT proved: it "
-    "is covered only by the numeric rank oracle (numpy.linalg.matrix_rank on integer / small float data)",
+    "the bridge from structure to linear algebra is proved in Lean/Mathlib on the model's emitted STRUCTURE "
+    "(reduced_matrix_full_rank_same_span: on a fully crossed design whose per-factor codings satisfy `Hyp` - [1 | reduced] "
+    "independent, full coding independent with span = span [1 | reduced], which C11's invertibility of [1 | coding] gives - "
+    "the structure columns of the reduced structure are linearly independent and span those of the unreduced one); the "
+    "identification of these abstract structure columns (functions on the level combinations) with the List-Rat Entry "
+    "columns of buildMatrix is NOT a Lean theorem (C02's column_is_product is its pointwise form); the numeric rank "
+    "oracle (numpy.linalg.matrix_rank) checks the conclusion on the real matrices",
 ]
 ASSUMPTIONS = [
     "each data variable is encoded by a single factor expression (as the property states); literal scales are non-zero",
@@ -277,9 +283,11 @@ LEVEL_TEXT = (
     "that the greedy recombination terminates and preserves the multiset of structural components, that no structural "
     "component is emitted twice (structural full rank) and that the emitted components are exactly the de-duplicated "
     "components of the unreduced matrix (unchanged span). The model is tied to the code by a differential correspondence "
-    "on model_spec.structure on every run. From distinct structural components to linear independence on a fully crossed "
-    "design: the tensor-rank core is proved (components_independent_partial); the change of basis for full-coded factors "
-    "is checked numerically (matrix_rank) on every generated case, not proved."
+    "on model_spec.structure on every run. The bridge to linear algebra is proved as well (Mathlib): one factor's full "
+    "coding spans 1 + reduced coding; a scoped term with full-coded factors spans the sum of its components on a fully "
+    "crossed design; hence the emitted structure's columns are linearly independent and span what the unreduced "
+    "structure spans (reduced_matrix_full_rank_same_span). Only the identification of those structure columns with the "
+    "concrete matrix columns is left to C02's column_is_product plus the numeric rank oracle (matrix_rank) on every case."
 )
 LEVEL_NOTE = (
     "Trusted: Lean kernel + propext/Classical.choice/Quot.sound; the hand model of base.py validated by correspondence; "
